@@ -9,6 +9,7 @@
 from __future__ import annotations
 
 import logging
+import math
 from abc import ABC, abstractmethod
 from dataclasses import dataclass
 from typing import TYPE_CHECKING
@@ -397,9 +398,12 @@ class MIOArchive(Archive):
                     assert chop_position is not None
                     solution_clone.test_case.chop(chop_position)
                 covered_before = self._archive[target].is_covered
-                updated |= self._archive[target].add_solution(
-                    1.0 - normalise(fitness_value), solution_clone
-                )
+                heuristic = 1.0 - normalise(fitness_value)
+                if fitness_value > 0.0:
+                    # A tiny distance (e.g., 5.55e-17 for `x == 0.1 + 0.2`) vanishes in
+                    # the subtraction, but only a fitness of zero covers the target.
+                    heuristic = min(heuristic, math.nextafter(1.0, 0.0))
+                updated |= self._archive[target].add_solution(heuristic, solution_clone)
                 # The goal was covered with this solution
                 # TODO(fk) replace with goal.is_covered?
                 if not covered_before and self._archive[target].is_covered:
